@@ -157,6 +157,29 @@ CONDITIONS.append(
          bounds="two-step histories: for (base type, derived element) pairs whose derived class adds children (%d pairs; quick: every second pair of the core modules), "
                 "serialise the base, then round-trip the derived class with all children present" % len(PAIRS)))
 
+MODS = sorted(set(c.__module__ for c in UNIVERSE[NQUICK:]))
+
+
+def smoke(mi: int, k: int, mask: int):
+    """Every class of the non-core schema modules with concrete strings (quick-tier stand-in for
+    the per-class symbolic condition, which runs for these modules in the thorough tier)."""
+    from veriflib.boot import concrete
+    mi, k, mask = concrete(mi), concrete(k), concrete(mask)
+    idx = [i for i in range(NQUICK, len(UNIVERSE)) if UNIVERSE[i].__module__ == MODS[mi]]
+    if k >= len(idx):
+        return True, False, "no such class"
+    r = roundtrip(idx[k], "a&", "<b", "c\"", [0, 21, 42, 63][mask], 2, True)
+    return r[0], True, r[2]
+
+
+CONDITIONS.append(
+    Cond(name="smoke", fn="smoke", params=[("mi", "int"), ("k", "int"), ("mask", "int")],
+         pre=["0 <= mi < %d" % len(MODS), "0 <= k < 120", "0 <= mask <= 3"],
+         partitions={"quick": [{"mi": m} for m in range(len(MODS))]}, tiers=("quick",),
+         timeout={"quick": 600}, path_timeout=60,
+         functions=["SamlBase._to_element_tree", "saml2_tophat.create_class_from_element_tree", "class tables of the extension / schema / ws / profile / authn_context modules"],
+         bounds="every class of the %d non-core schema modules, concrete strings, 4 child masks" % len(MODS)))
+
 ASSUMPTIONS = [
     "element-tree level only: ElementTree.tostring / expat (C) are outside the claim - 'serialising again gives identical text' is decided as 'gives an equal tree'",
     "element text is non-empty: an empty text node and an absent one are the same XML, so '' vs None is not a difference the statement can mean "
